@@ -431,7 +431,8 @@ func (fi *FuncInfo) Visit(node ast.Node) ast.Visitor {
 		}
 		return fi
 	case *ast.RangeStmt:
-		if _, ok := fi.pkgInfo.TypeOf(n.X).Underlying().(*types.Chan); ok {
+		// The operand may be of a type parameter type instantiated with a channel.
+		if _, ok := fi.resolver.Substitute(fi.pkgInfo.TypeOf(n.X)).Underlying().(*types.Chan); ok {
 			// for-range loop over a channel is blocking.
 			fi.markBlocking(fi.visitorStack)
 		}
